@@ -85,7 +85,10 @@ def add_filter(component, patterns, max_match=MAX_MATCH):
         return a if b is None else b if a is None else max(a, b)
 
     def max_matchs(da, db):
-        return dict((k, none_max(da.get(k), db.get(k))) for k in set(da.keys()).union(db.keys()))
+        # keep the order of registration: the order of the filters decides
+        # which one a line is counted against once a max_match runs out
+        keys = list(da) + [k for k in db if k not in da]
+        return dict((k, none_max(da.get(k), db.get(k))) for k in keys)
 
     def inner(comp, patterns):
         # results cached for the dependencies and dependents of comp are stale too
@@ -100,6 +103,9 @@ def add_filter(component, patterns, max_match=MAX_MATCH):
         for pat in patterns:
             if not pat:
                 raise Exception("Filter patterns must not be empty.")
+
+        if isinstance(patterns, set):
+            patterns = sorted(patterns)
 
         patterns = dict((pt, max_match) for pt in patterns)
         # here patterns is a dict
